@@ -66,6 +66,33 @@ fn delete_tables(path: &std::path::Path, which: u8) -> R<Vec<String>> {
         for h in handles {
             let name = h.name().to_string();
             let hit = (which & 1 != 0 && name == "latest-by-author-1") || (which & 2 != 0 && name == "records-by-key-1");
+            if which & 4 != 0 && name == "namespaces-2" {
+                // old layout: namespaces-1 maps the id to the write secret
+                const V2: redb::TableDefinition<&[u8; 32], (u8, &[u8; 32])> = redb::TableDefinition::new("namespaces-2");
+                const V1: redb::TableDefinition<&[u8; 32], &[u8; 32]> = redb::TableDefinition::new("namespaces-1");
+                let mut rows: Vec<([u8; 32], [u8; 32])> = vec![];
+                {
+                    use redb::ReadableTable;
+                    let t2 = es(tx.open_table(V2))?;
+                    for r in es(t2.iter())? {
+                        let (k, v) = es(r)?;
+                        let (kind, bytes) = v.value();
+                        if kind != 1 {
+                            return Err("a read-only document cannot be expressed in the old layout".into());
+                        }
+                        rows.push((*k.value(), *bytes));
+                    }
+                }
+                {
+                    let mut t1 = es(tx.open_table(V1))?;
+                    for (k, v) in &rows {
+                        es(t1.insert(k, v))?;
+                    }
+                }
+                es(tx.delete_table(V2))?;
+                deleted.push("namespaces-2 -> namespaces-1".to_string());
+                continue;
+            }
             if hit {
                 es(tx.delete_table(h))?;
                 deleted.push(name);
@@ -109,7 +136,9 @@ impl Prop for C18 {
             1u8..=3,
             vec((0u8..3, egen()), 0..=max),
             any::<bool>(),
-            prop_oneof![1 => Just(0u8), 3 => Just(1u8), 3 => Just(2u8), 3 => Just(3u8)],
+            // bit 2: the documents are moved back into the old `namespaces-1` table (id -> write secret), as in a database
+            // written before the capability table existed
+            (prop_oneof![1 => Just(0u8), 3 => Just(1u8), 3 => Just(2u8), 3 => Just(3u8)], prop::bool::weighted(0.35)).prop_map(|(d, old)| if old { d | 4 } else { d }),
             0u8..=3,
             vec(qgen_by_key(), 1..=12),
         )
@@ -157,6 +186,9 @@ impl Prop for C18 {
             drop(store);
 
             let deleted = delete_tables(&path, c.delete)?;
+            if c.delete & 4 != 0 {
+                o.class("documents-in-the-old-namespaces-table");
+            }
             match c.delete & 3 {
                 0 => o.class("delete/none"),
                 1 => o.class("delete/latest-by-author"),
